@@ -76,6 +76,11 @@ def handleC16 (cmd : String) (args : List Sexp) : Option Sexp :=
   | "c16.unsqueeze", [r, d] => do pure (ntToSexp (unsqueeze (← nt? r) (← asNat? d)))
   | "c16.squeeze", [r, d] => do pure (ntToSexp (squeeze (← nt? r) (← asNat? d)))
   | "c16.permute", [r, .list p] => do pure (ntToSexp (permute (← nt? r) (← nats? p)))
+  | "c16.reshape", [r, .list sh] => do pure (resToSexp (reshapeNT (← nt? r) (← nats? sh)))
+  | "c16.view", [r, .list sh] => do pure (resToSexp (viewNT (← nt? r) (← nats? sh)))
+  | "c16.split", [r, n, d] => do pure (.list ((splitNT (← nt? r) (← asNat? n) (← asNat? d)).map ntToSexp))
+  | "c16.chunk", [r, n, d] => do pure (.list ((chunk (← nt? r) (← asNat? n) (← asNat? d)).map ntToSexp))
+  | "c16.ravel", [.list c, .list sh] => do pure (ofNat (ravel (← nats? c) (← nats? sh)))
   | _, _ => none
 
 end TdVerif.Drive
